@@ -31,7 +31,41 @@ def lift(model, req):
     if ".parser." in str(req.get("target", "")).replace(":", "."):
         from .parser_replay import search
         return search()
+    if "hex" in str(req.get("target", "")) or "escape" in str(req.get("target", "")):
+        r = escape_search()
+        if r.get("confirmed"):
+            return r
     return ignored_insertion_search(model)
+
+
+def escape_search():
+    """String tokens with a \\uXXXX escape: lexed exactly when the four characters are hexadecimal
+    digits (and the code point is not a lone surrogate), with the value chr(int(XXXX, 16))."""
+    import itertools
+    from graphql import GraphQLSyntaxError
+    from graphql.language import Lexer, Source, TokenKind
+    alpha = ["0", "4", "9", "a", "F", "g", "+", "-", " ", "_", "x", "\uff11", "\u0661", "\t"]
+    hexd = set("0123456789abcdefABCDEF")
+    for body in itertools.product(alpha, repeat=4):
+        b = "".join(body)
+        text = '"\\u' + b + '"'
+        ok = all(c in hexd for c in b)
+        cp = int(b, 16) if ok else None
+        if ok and 0xD800 <= cp <= 0xDFFF:
+            ok = False
+        try:
+            tok = Lexer(Source(text)).advance()
+            got = tok.value if tok.kind == TokenKind.STRING else None
+            lexed = True
+        except GraphQLSyntaxError:
+            lexed, got = False, None
+        except Exception as e:  # noqa: BLE001
+            return {"confirmed": True, "entry": "Lexer.advance", "input": text, "observed": f"{type(e).__name__}: {e}"}
+        if lexed != ok or (ok and got != chr(cp)):
+            return {"confirmed": True, "entry": "Lexer.advance", "input": text,
+                    "observed": f"{'lexed as a string with value ' + repr(got) if lexed else 'rejected'}; the grammar "
+                                f"{'accepts it as ' + repr(chr(cp)) if ok else 'rejects it'}"}
+    return {"confirmed": False}
 
 
 IGNORED = ["\ufeff", " ", "\t", ",", "\n", "\r", "\r\n", "# c\n", "# c\r", "#\r\n"]
